@@ -108,7 +108,7 @@ pub fn run(tier: Tier, seed: u64) -> i32 {
         "every member sequence up to the stated length over 12 methods (3 names x {no code, 8, 010, 10}) and a constant; all validation diagnostics inside the interface body (Errors with their related ranges) are compared with a reference single pass transcribed from the statement; distinct_nontrivial counts distinct sequences",
         &[
             "name-repeat and code-repeat Errors are located exactly (name / code range, related = first holder); the 'mixed' Error anywhere inside the designated method",
-            "sequences in which repeated-name methods would change the 'mixed' verdict are left open for that rule (statement ambiguous) and counted",
+            "the 'mixed' rule is read as the sentence scopes it: among methods with distinct names (first occurrences)",
         ],
         &|c| check_case(c).to_result(),
         &[("every rule fires and clean interfaces occur", all)],
